@@ -296,17 +296,25 @@ fn optimum(rep: &Reporter) {
 /// One step of a change-of history: the observed value becomes `Some(v)` and the condition is asked,
 /// or (`None`) the condition is initialised again (a loop does that on every entry): after that it
 /// has not reported anything yet.
-type Step = Option<u32>;
+/// A third kind of step: the observed state is missing when the condition is asked (the lens fails, the
+/// condition returns the error) and is put back afterwards with the value it had: nothing was reported, so what the
+/// condition remembers is untouched.
+#[derive(Clone, Copy, Debug, PartialEq, Eq, Hash, Serialize)]
+enum Step {
+    Val(u32),
+    Init,
+    Fail,
+}
 
 fn change_of(rep: &Reporter) {
     let p = problem();
-    let alphabet: [Step; 5] = [Some(0), Some(1), Some(2), Some(5), None];
+    let alphabet: [Step; 6] = [Step::Val(0), Step::Val(1), Step::Val(2), Step::Val(5), Step::Init, Step::Fail];
     let max_len = rep.tier.pick(6usize, 7usize);
     let mut histories = 0u64;
     for len in 1..=max_len {
         for code in 0..alphabet.len().pow(len as u32) {
             let mut c = code;
-            let hist: Vec<Step> = (0..len).map(|_| { let v = alphabet[c % 5]; c /= 5; v }).collect();
+            let hist: Vec<Step> = (0..len).map(|_| { let v = alphabet[c % 6]; c /= 6; v }).collect();
             if len < max_len && code % 3 != 0 {
                 continue; // prefixes of longer histories are covered by them
             }
@@ -332,14 +340,26 @@ fn change_of(rep: &Reporter) {
                         let mut last: Option<u32> = None;
                         for (k, step) in hist.iter().enumerate() {
                             let v = match *step {
-                                None => {
+                                Step::Init => {
                                     if let Err(e) = cond.init(&p, st) {
                                         return Some(("change-of:init-failed".into(), json!({"error": e.to_string()})));
                                     }
                                     last = None;
                                     continue;
                                 }
-                                Some(v) => v,
+                                Step::Fail => {
+                                    let (u, o) = (st.get_value::<ValU>(), st.get_value::<ValO>());
+                                    let _ = st.remove::<ValU>();
+                                    let _ = st.remove::<ValO>();
+                                    let r = catch(|| cond.evaluate(&p, st));
+                                    st.insert(ValU(u));
+                                    st.insert(ValO(o));
+                                    if !matches!(r, Ok(Err(_))) {
+                                        return Some((format!("change-of:{target}:answers-although-the-observed-state-is-missing"), json!({"history": hist, "step": k, "result": format!("{r:?}")})));
+                                    }
+                                    continue;
+                                }
+                                Step::Val(v) => v,
                             };
                             st.set_value::<ValU>(v);
                             st.set_value::<ValO>(so(v as f64));
@@ -357,8 +377,11 @@ fn change_of(rep: &Reporter) {
                             let r = catch(|| cond.evaluate(&p, st));
                             if !matches!(r, Ok(Ok(b)) if b == want) {
                                 let checker = if thr == 0 { "partial-eq".to_string() } else { "delta".to_string() };
-                                let reinit = hist[..k].contains(&None);
-                                let kind = if want && reinit && last.is_none() {
+                                let reinit = hist[..k].contains(&Step::Init);
+                                let after_failure = k > 0 && hist[k - 1] == Step::Fail;
+                                let kind = if after_failure && !want {
+                                    "memory-lost-when-the-lens-failed"
+                                } else if want && reinit && last.is_none() {
                                     "no-report-after-being-initialised-again"
                                 } else if want {
                                     "missed-change"
@@ -443,6 +466,22 @@ fn change_of_pairs(rep: &Reporter) {
     rep.count("change_of_pair_histories", n);
 }
 
+#[derive(Clone)]
+struct Hit {
+    count: Arc<Mutex<u32>>,
+}
+impl Serialize for Hit {
+    fn serialize<S: serde::Serializer>(&self, s: S) -> Result<S::Ok, S::Error> {
+        s.serialize_unit_struct("Hit")
+    }
+}
+impl Component<P> for Hit {
+    fn execute(&self, _p: &P, _state: &mut State<P>) -> ExecResult<()> {
+        *self.count.lock().unwrap() += 1;
+        Ok(())
+    }
+}
+
 // ---- random chance ------------------------------------------------------------------------------------
 fn random_chance(rep: &Reporter) {
     let p = problem();
@@ -471,6 +510,30 @@ fn random_chance(rep: &Reporter) {
             let ok = failed.is_none() && if pr == 0.0 { hits == 0 } else if pr == 1.0 { hits == n } else { (freq - pr).abs() <= eps };
             if !ok {
                 rep.violation(&format!("random-chance:frequency-outside-band:p={pr}"), json!({"p": pr, "draws": n, "hits": hits, "frequency": freq, "band": eps, "failure": failed}));
+            }
+        }
+    }
+    // the condition inside a scope that is entered anew in every pass of a loop: every entry draws from the run's
+    // generator, so the firings still have the configured frequency
+    {
+        use mahf::components::{Branch, Scope};
+        let n2 = rep.tier.pick(20_000u32, 400_000u32);
+        let eps2 = ((2.0f64 / 1e-10).ln() / (2.0 * n2 as f64)).sqrt();
+        for &pr in &[0.1f64, 0.5, 0.9] {
+            for seed in 0..rep.tier.pick(2u64, 8u64) {
+                rep.case();
+                rep.nontrivial(hash_of(&("chance-in-scope", pr.to_bits(), seed)));
+                let count = Arc::new(Mutex::new(0u32));
+                let body = Hit { count: count.clone() };
+                let cfg = Configuration::<P>::new(Loop::new(LessThanN::iterations(n2), vec![Scope::new(vec![Branch::new(RandomChance::new::<P>(pr), vec![Box::new(body) as Box<dyn Component<P>>])])]));
+                let mut st: State<P> = State::new();
+                st.insert(mahf::state::Random::new(rep.seed ^ (seed * 104729)));
+                let r = catch(|| cfg.run(&p, &mut st).map_err(|e| e.to_string()));
+                let hits = *count.lock().unwrap();
+                let freq = hits as f64 / n2 as f64;
+                if !matches!(r, Ok(Ok(()))) || (freq - pr).abs() > eps2 {
+                    rep.violation(&format!("random-chance:inside-a-scope-entered-in-every-pass:frequency-outside-band:p={pr}"), json!({"p": pr, "scope_entries": n2, "hits": hits, "frequency": freq, "band": eps2, "result": format!("{r:?}")}));
+                }
             }
         }
     }
@@ -637,7 +700,7 @@ fn logical(rep: &Reporter) {
 
 fn main() {
     let rep = Reporter::from_args("C10");
-    rep.rule("prepared states x conditions: LessThanN (custom u32/f64 lens, iterations, evaluations) for n in {1,2,3,7,10,1000} x values 0..n+2, boundary and random values incl. the Progress state written; EveryN for n in {1,2,3,7,10} x values 0..3n+2; real Loops with a counting body and a counting condition wrapper for n in 0..12, 50, 333 (passes, tests, iteration counter, progress sequence k/n); OptimumReached over epsilon x distance grid with/without a best individual; ChangeOf with PartialEqChecker and DeltaEqChecker(1..5) on u32 and SingleObjective targets over all histories up to the stated length over {0,1,2,5, initialise-again} vs a last-reported model (a fresh initialisation forgets what was reported), the condition living 0-2 scopes further in than the value it observes; pairs of ChangeOf conditions on different values of the same / of different Rust types in one state (each answers relative to its own last report); LessThanN / EveryN / OptimumReached also asked from inside 1-2 scopes opened over the state they observe; RandomChance frequencies vs a Hoeffding band (delta=1e-10); all Boolean formulas up to depth 2 (sampled depth 3) over three counting operands x all 8 assignments, built with constructors and with the & | ! operators. distinct_nontrivial = distinct (condition, parameter, value/history/assignment) cells");
+    rep.rule("prepared states x conditions: LessThanN (custom u32/f64 lens, iterations, evaluations) for n in {1,2,3,7,10,1000} x values 0..n+2, boundary and random values incl. the Progress state written; EveryN for n in {1,2,3,7,10} x values 0..3n+2; real Loops with a counting body and a counting condition wrapper for n in 0..12, 50, 333 (passes, tests, iteration counter, progress sequence k/n); OptimumReached over epsilon x distance grid with/without a best individual; ChangeOf with PartialEqChecker and DeltaEqChecker(1..5) on u32 and SingleObjective targets over all histories up to the stated length over {0,1,2,5, initialise-again, asked-while-the-observed-state-is-missing} vs a last-reported model (a fresh initialisation forgets what was reported), the condition living 0-2 scopes further in than the value it observes; pairs of ChangeOf conditions on different values of the same / of different Rust types in one state (each answers relative to its own last report); LessThanN / EveryN / OptimumReached also asked from inside 1-2 scopes opened over the state they observe; RandomChance frequencies vs a Hoeffding band (delta=1e-10), asked directly and inside a scope that is entered anew in every pass of a loop; all Boolean formulas up to depth 2 (sampled depth 3) over three counting operands x all 8 assignments, built with constructors and with the & | ! operators. distinct_nontrivial = distinct (condition, parameter, value/history/assignment) cells");
     rep.assume("RandomChance band: |freq - p| <= sqrt(ln(2/1e-10)/(2N)); exact for p in {0,1}");
     less_than_n(&rep);
     loops(&rep);
